@@ -1,7 +1,7 @@
 --------------------------- MODULE MC_PageStore ---------------------------
 (* Bounded instances of PageStore: exhaustive model checking (MC_*.cfg),    *)
 (* behaviour generation for replay into the real code (Gen_*.cfg).          *)
-EXTENDS PageStore, Json
+EXTENDS PageStore, Json, IOUtils
 
 (* ---------------- atom tables of the bounded universe ---------------- *)
 T_PfxNs == ("Template:" :> 10) @@ ("template:" :> 10) @@ ("TEMPLATE:" :> 10) @@
@@ -12,6 +12,41 @@ T_UpperOf == ("f" :> "F") @@ ("F" :> "F") @@ ("z" :> "Z") @@ ("Z" :> "Z")
 DevIdeal == {}
 DevMemo == {"MemoNotInvalidatedOnAdd"}
 DevMain == {"MainPrefixStrippedOnAdd"}
+DevCanonUnfolded == {"CanonicalNameNotFolded"}
+
+(* ---------------- the namespace table of a site as the constant ---------------- *)
+(* S_* configurations take the atom tables from a namespace table (PageStore.tla,   *)
+(* Ns* operators).  The table comes from the file named by the environment variable *)
+(* NS_FILE: the harness writes the namespace table of one shipped language          *)
+(* configuration there (entries as the real context holds them, the letter-case     *)
+(* facts of the prefix spellings, the namespaces to exercise).  Without NS_FILE     *)
+(* the built-in excerpt of the English table is used: Project/Wiktionary and        *)
+(* Project talk/Wiktionary talk are the namespaces whose local name differs from    *)
+(* the canonical one there.                                                         *)
+B_Tab == << NsEntry(0, "Main", "Main", <<>>),
+            NsEntry(4, "Project", "Wiktionary", <<"WT">>),
+            NsEntry(5, "Project talk", "Wiktionary talk", <<>>),
+            NsEntry(10, "Template", "Template", <<"T">>) >>
+B_Fold == ("Wiktionary:" :> "wiktionary:") @@ ("wiktionary:" :> "wiktionary:") @@ ("WIKTIONARY:" :> "wiktionary:") @@
+          ("Project:" :> "project:") @@ ("project:" :> "project:") @@ ("PROJECT:" :> "project:") @@
+          ("WT:" :> "wt:") @@ ("wt:" :> "wt:") @@
+          ("Wiktionary talk:" :> "wiktionary talk:") @@ ("wiktionary_talk:" :> "wiktionary talk:") @@
+          ("Project talk:" :> "project talk:") @@ ("PROJECT TALK:" :> "project talk:") @@
+          ("Project_talk:" :> "project talk:") @@
+          ("Template:" :> "template:") @@ ("template:" :> "template:") @@ ("T:" :> "t:") @@ ("t:" :> "t:")
+Site == IF "NS_FILE" \in DOMAIN IOEnv THEN JsonDeserialize(IOEnv.NS_FILE)
+        ELSE [nstab |-> B_Tab, fold |-> B_Fold, namespaces |-> <<4, 5>>]
+S_Tab == {Site.nstab[i] : i \in 1..Len(Site.nstab)}
+S_Fold == Site.fold
+\* (TLC re-evaluates the body of a definition that a cfg substitutes for a CONSTANT at every
+\* reference; a body that is a bare reference to another definition picks up TLC's cached value)
+S_PfxNsV == NsRefPfxNs(S_Tab, S_Fold)        \* what the statement demands
+S_CanonPfxV == NsCanonPfx(S_Tab)
+S_NamespacesV == {Site.namespaces[i] : i \in 1..Len(Site.namespaces)}
+S_PfxNs == S_PfxNsV
+S_Namespaces == S_NamespacesV
+S_CanonPfx == S_CanonPfxV
+S_Entry(ns) == CHOOSE e \in S_Tab : e.id = ns
 
 CONSTANTS Namespaces, Bases, Bodies, MaxLen, LookupPfx, WithUnderscore, WithNoNs, NrSet
 
@@ -30,6 +65,9 @@ BodiesOne == {"b1"}
 BodiesTwo == {"b1", "b2"}
 PfxFew == {"none", "canon", "alias"}
 PfxAll == {"none", "canon", "lower", "upper", "alias", "aliaslower"}
+\* "table": every prefix atom of the spelling universe that names the namespace per PfxNs
+\* (local name, canonical name, aliases, each in every letter case the universe holds)
+PfxTable == {"none", "table"}
 
 PfxAtom(ns, kind) ==
   CASE ns = 10 /\ kind = "canon" -> "Template:"
@@ -43,8 +81,12 @@ PfxAtom(ns, kind) ==
     [] ns = 828 /\ kind = "alias" -> "MOD:"
     [] ns = 828 /\ kind = "aliaslower" -> "mod:"
 
+PfxAtomsOf(ns) ==
+  {PfxAtom(ns, k) : k \in LookupPfx \ {"none", "table"}} \cup
+  (IF "table" \in LookupPfx THEN {p \in DOMAIN PfxNs : PfxNs[p] = ns} ELSE {})
+
 (* titles as written by callers *)
-Stored(ns, b) == IF ns = 0 THEN b ELSE <<PfxAtom(ns, "canon")>> \o b
+Stored(ns, b) == IF ns = 0 THEN b ELSE <<CanonPfx[NsKey(ns)]>> \o b
 AddSpellings(ns, b) == IF ns = 0 THEN {b} ELSE {b, Stored(ns, b)}
 Underscored(t) == [i \in 1..Len(t) |-> IF t[i] = "SP" THEN "US" ELSE t[i]]
 LowerFirstOf(b) == [b EXCEPT ![1] = IF b[1] = "F" THEN "f" ELSE b[1]]
@@ -53,13 +95,30 @@ LookupBases == Bases \cup {LowerFirstOf(b) : b \in Bases}
 LookupSpellings(ns) ==
   LET plain == {b : b \in LookupBases} \cup
                (IF ns = 0 THEN {} ELSE
-                  {<<PfxAtom(ns, k)>> \o b : k \in (LookupPfx \ {"none"}), b \in LookupBases})
+                  {<<p>> \o b : p \in PfxAtomsOf(ns), b \in LookupBases})
   IN plain \cup (IF WithUnderscore THEN {Underscored(t) : t \in plain} ELSE {})
 
-RedirectTargets(ns) == {Stored(ns, b) : b \in Bases}
+\* redirects are written with the stored prefix; over a namespace table with the canonical
+\* name instead (the spelling every site understands) when that is another name, and never
+\* to the page itself
+RedirectTargets(ns) ==
+  IF "table" \in LookupPfx /\ ns # 0 /\ S_Entry(ns).canonical # S_Entry(ns).local
+  THEN {<<NsPfxAtom(S_Entry(ns).canonical)>> \o b : b \in Bases}
+  ELSE {Stored(ns, b) : b \in Bases}
+IsRedirectOf(tgt, ns, b) ==
+  /\ tgt \in RedirectTargets(ns)
+  /\ tgt # Stored(ns, b)
+  /\ ("table" \in LookupPfx /\ ns # 0 => Tail(tgt) # b)
 
+\* over a namespace table every spelling is looked up under its own namespace, and the stored
+\* spellings under every other one (a prefix atom with an underscore inside is only defined
+\* as the prefix of its own namespace)
 ArgSet ==
-  {Args(t, ns, nr) : t \in UNION {LookupSpellings(n) : n \in Namespaces}, ns \in Namespaces, nr \in NrSet}
+  (IF "table" \in LookupPfx
+   THEN {Args(t, ns, nr) : t \in UNION {{b, Stored(n, b)} : n \in Namespaces, b \in LookupBases},
+                           ns \in Namespaces, nr \in NrSet}
+        \cup UNION {{Args(t, ns, nr) : t \in LookupSpellings(ns), nr \in NrSet} : ns \in Namespaces}
+   ELSE {Args(t, ns, nr) : t \in UNION {LookupSpellings(n) : n \in Namespaces}, ns \in Namespaces, nr \in NrSet})
   \cup (IF WithNoNs
         THEN {Args(t, NoNs, nr) : t \in UNION {{b, Stored(n, b)} : n \in Namespaces, b \in LookupBases},
                                   nr \in NrSet}
@@ -70,10 +129,17 @@ DoAdd ==
   \E ns \in Namespaces, b \in Bases :
     \E t \in AddSpellings(ns, b) :
       \/ \E body \in Bodies : AddPage(t, ns, NoRedirect, body, "wikitext")
-      \/ \E tgt \in RedirectTargets(ns) : tgt # Stored(ns, b) /\ AddPage(t, ns, tgt, "", "wikitext")
+      \/ \E tgt \in RedirectTargets(ns) : IsRedirectOf(tgt, ns, b) /\ AddPage(t, ns, tgt, "", "wikitext")
 
 DoLookup == \E a \in ArgSet : Lookup(a.title, a.ns, a.nr)
 DoResolve == \E a \in ArgSet : a.nr = FALSE /\ LookupResolve(a.title, a.ns)
+
+(* the table the code builds (namespace_prefixes) against the table the statement demands *)
+S_CodePfxNs == NsCodePfxNs(S_Tab, S_Fold, Dev)
+TableWellFormed == NsUnambiguous(S_Tab, S_Fold) /\ S_Namespaces \subseteq {e.id : e \in S_Tab}
+CodeTableMeetsStatement ==
+  /\ TableWellFormed
+  /\ \A a \in ArgU : DbGetP(cur, a.title, a.ns, a.nr, S_CodePfxNs, CanonPfx) = RefGet(cur, a.title, a.ns, a.nr)
 
 NextNorm == DoAdd
 NextMemo == DoAdd \/ DoLookup \/ DoResolve \/ Commit
